@@ -50,7 +50,7 @@ var ruleErrSites = &Rule{
 			}
 		}
 		out.Counts["error_sites"] = n
-		out.Floors["error_sites"] = 60
+		out.Floors["error_sites"] = 20
 		return out
 	},
 }
@@ -93,7 +93,7 @@ var ruleErrClass = &Rule{
 				out.viol(key, p.pos(fn.Pos()), fnName(fn), "an error that does not wrap exec.ErrExecution (nor is NULL where allowed) can leave this entry point", w...)
 			}
 			out.Counts["sources reaching "+name] = len(set)
-			out.Floors["sources reaching "+name] = 40
+			out.Floors["sources reaching "+name] = 13
 		}
 		return out
 	},
@@ -258,7 +258,7 @@ var ruleGate = &Rule{
 			}
 		}
 		out.Counts["gate_call_sites"] = ncalls
-		out.Floors["gate_call_sites"] = 30
+		out.Floors["gate_call_sites"] = 10
 		// returns of pair functions
 		nret := 0
 		for _, fn := range p.execFuncs() {
@@ -277,7 +277,7 @@ var ruleGate = &Rule{
 			}
 		}
 		out.Counts["returns_examined"] = nret
-		out.Floors["returns_examined"] = 150
+		out.Floors["returns_examined"] = 50
 		return out
 	},
 }
@@ -544,7 +544,7 @@ var ruleHard = &Rule{
 			}
 		}
 		out.Counts["useTZ_tests"] = ntz
-		out.Floors["useTZ_tests"] = 8
+		out.Floors["useTZ_tests"] = 1
 		return out
 	},
 }
@@ -687,7 +687,7 @@ var ruleVerboseUse = &Rule{
 			}
 		}
 		out.Counts["reads_of_the_suppression_flag"] = n
-		out.Floors["reads_of_the_suppression_flag"] = 4
+		out.Floors["reads_of_the_suppression_flag"] = 1
 		return out
 	},
 }
